@@ -17,8 +17,19 @@ def formfactor_spec(data, stl):
 
 
 class _AtomlibStub:
+    """atomlib as seen by FormFactor: the looked-up entry is symbolic; every other module-level literal of the
+    real atomlib.py is visible with its real value"""
+
     def __init__(self, table):
         self.formfactor = table
+
+    def __getattr__(self, name):
+        import ast as _ast
+        from pyvc.source import Source
+        for node in Source().module('atomlib').body:
+            if isinstance(node, _ast.Assign) and getattr(node.targets[0], 'id', None) == name:
+                return _ast.literal_eval(node.value)
+        raise AttributeError(name)
 
 
 @register('structure')
